@@ -5,6 +5,7 @@
 (*   Reset{kind}  Put{seq,id,ret,k0,k1,so}  Get{seq,ret,id}  PutCtrl{s,r,ret,k0,k1}  GetCtrl{ret,s,r}*)
 (*   Last{ret,out}  Nearest{req,last,ret}  Range{from,to,ret,calls:[{seq,id,nomore}]}  Reopen{k}   *)
 (* k0/k1 are the numbers of completed system calls on the store's files before/after the call, so *)
+(* "Reopen2" = a clean restart afterwards (fresh persister on the files the reopened one left).     *)
 (* "Reopen{k}" (a fresh persister on the disk image after system call k) tells the monitor which  *)
 (* stores had completed (k1 <= k) and which one was in flight (k0 < k < k1).                       *)
 (*                                                                                                *)
@@ -17,8 +18,11 @@ EXTENDS Common, Persister
 VARIABLES l, ms, fails, nexec, labels
 
 NoOp == [op |-> "none"]
+\* pempty / pfirst / pctrl: deviation ctrl_slot_shared once more, for the process that reopened the store: the index file
+\* was empty when it opened it, the first record it stored was message pfirst (0 = nothing yet, -1 = a control record),
+\* and a control store followed - then that message is predicted to be missing after the next restart (Reopen2)
 MsInit(kind) == [kind |-> kind, phase |-> "live", c |-> {CInit}, dc |-> {}, log |-> <<>>,
-                 amb |-> NoOp, ever |-> EmptyFn]
+                 amb |-> NoOp, ever |-> EmptyFn, pempty |-> FALSE, pfirst |-> 0, pctrl |-> FALSE]
 
 Ev == TraceLog[l]
 
@@ -93,8 +97,21 @@ MonStep(m, e) ==
             cs == IF a.op = "none" THEN {base} ELSE {base, Apply(base, a).st}
             dcs == IF FirstIsMsg(m.log) /\ CtrlWritten(m.log, e.k)
                    THEN {Without(c, m.log[1].o.seq) : c \in cs} ELSE {}
-        IN [ok |-> e.ret, m |-> [m EXCEPT !.phase = "post", !.c = cs, !.dc = dcs, !.amb = a],
+        IN [ok |-> e.ret, m |-> [m EXCEPT !.phase = "post", !.c = cs, !.dc = dcs, !.amb = a,
+                                          !.pempty = TRUE, !.pctrl = FALSE,
+                                          \* what index slot 0 holds on this disk image: nothing yet (0), message q not yet
+                                          \* overwritten by a control store (q), or a control record / nothing at stake (-1)
+                                          !.pfirst = IF Get(e, "idxlen", 1) = 0 THEN 0
+                                                     ELSE IF FirstIsMsg(m.log) /\ m.log[1].k1 <= e.k /\ ~CtrlWritten(m.log, e.k)
+                                                          THEN m.log[1].o.seq ELSE -1],
             why |-> "reopen_failed", sig |-> "reopen_failed"]
+    \* a clean restart after the crash recovery: the process that reopened the store ends in an orderly way and another one
+    \* opens the files; nothing is in flight, so what the candidates hold must all be there
+    ELSE IF e.e = "Reopen2" THEN
+        [ok |-> e.ret,
+         m |-> [m EXCEPT !.dc = m.dc \cup (IF m.pfirst > 0 /\ m.pctrl THEN {Without(c, m.pfirst) : c \in m.c \cup m.dc} ELSE {}),
+                         !.pempty = FALSE, !.pfirst = 0, !.pctrl = FALSE],
+         why |-> "reopen_failed", sig |-> "second_reopen_failed"]
     ELSE IF IsCall(e) THEN
         LET o == OpOf(e)
             obs == ObsOf(e)
@@ -111,8 +128,11 @@ MonStep(m, e) ==
             log2 == IF m.phase = "live" /\ e.e \in {"Put", "PutCtrl"} /\ e.ret
                     THEN Append(m.log, [o |-> o, k0 |-> e.k0, k1 |-> e.k1]) ELSE m.log
             explained == m.dc # {} /\ wf /\ \E c \in m.dc : Apply(c, o).res = obs
+            post == m.phase = "post" /\ m.pempty /\ (IF e.e \in {"Put", "PutCtrl"} THEN e.ret ELSE FALSE)
+            pf2 == IF post /\ m.pfirst = 0 THEN (IF e.e = "Put" THEN e.seq ELSE IF e.e = "PutCtrl" THEN -1 ELSE 0) ELSE m.pfirst
+            pc2 == m.pctrl \/ (post /\ e.e = "PutCtrl" /\ m.pfirst > 0)
         IN [ok |-> r.ok /\ wf,
-            m |-> [m EXCEPT !.c = r.cs, !.dc = d.cs, !.ever = ev2, !.log = log2],
+            m |-> [m EXCEPT !.c = r.cs, !.dc = d.cs, !.ever = ev2, !.log = log2, !.pfirst = pf2, !.pctrl = pc2],
             why |-> Clause(e, m),
             sig |-> m.kind \o ":" \o m.phase \o ":" \o
                     (IF explained THEN "ctrl_slot_shared" ELSE "unexplained:" \o Clause(e, m))]
